@@ -1,6 +1,7 @@
 import PEval.Driver.Util
 import PEval.Driver.C04
 import PEval.Model.AP
+import PEval.Model.APExt
 /-! Driver handler for C08 (threshold monotonicity): the TP/FP/TN/FN split under one threshold
 list; AP / mAP requests are served by the C04 handler (same model). -/
 open Lean
@@ -18,14 +19,25 @@ def handle : Json → Except String Json := fun j => do
   | "posneg" =>
     let m ← getMode j
     let targets ← getNatList j "targets"
-    let thrs ← match j.getObjVal? "thrs" with
+    let ethrs ← match j.getObjVal? "thrs" with
       | .ok .null => pure none
-      | .ok (.arr a) => (a.toList.mapM asRat).map some
+      | .ok (.arr a) => (a.toList.mapM asEThr).map some
       | _ => throw "thrs must be null or a list"
     let rs ← getResList j "results"
     let gts ← (← getArr j "gts").toList.mapM asGt
-    pure (Json.mkObj [("pos", jPair "tp" "fp" (getPositive m targets thrs rs)),
-                      ("neg", jPair "tn" "fn" (getNegative m targets thrs gts rs))])
+    -- all thresholds finite: the functions of `Model/AP.lean`; with `inf` among them: their `EThr` versions
+    match ethrs with
+    | none =>
+      pure (Json.mkObj [("pos", jPair "tp" "fp" (getPositive m targets none rs)),
+                        ("neg", jPair "tn" "fn" (getNegative m targets none gts rs))])
+    | some es =>
+      match allFin es with
+      | some thrs =>
+        pure (Json.mkObj [("pos", jPair "tp" "fp" (getPositive m targets (some thrs) rs)),
+                          ("neg", jPair "tn" "fn" (getNegative m targets (some thrs) gts rs))])
+      | none =>
+        pure (Json.mkObj [("pos", jPair "tp" "fp" (getPositiveE m targets (some es) rs)),
+                          ("neg", jPair "tn" "fn" (getNegativeE m targets (some es) gts rs))])
   | _ => PEval.Driver.C04.handle j
 
 end PEval.Driver.C08
